@@ -352,7 +352,7 @@ struct ReplyWorld : World {
 	struct CReq {
 		uint32_t serial; int behaviour; bool awaited; uint64_t cid = 0; Bytes payload;
 		bool sent = false, push_failed = false, faulted = false;
-		int handled = 0, callbacks = 0, cancelled = 0;
+		int handled = 0, callbacks = 0, cancelled = 0; bool dropped = false;
 		int allowed_handled = 1, allowed_callbacks = 1;   // datagram layer: number of request / reply datagrams delivered
 		int replies_made = 0; bool net_faulted = false;
 		bool discarded = false;             // dispatched by the peer without handler
@@ -503,11 +503,20 @@ struct ReplyWorld : World {
 				  if (ar >= 0) {
 					Q.cid = P.con->cid;
 					size_t off = 0, cut = (op.a & 1) ? Q.payload.size() / 2 : Q.payload.size(); ssize_t r = 0; int guard = 0;
+					bool dropit = ((uint64_t) op.a & 0x1801) == 0x1801;      // the requester gives the message up half-way (as the library's own callers do after a failed push)
 					while (off < Q.payload.size() && ++guard < 64) {
 						size_t n = (off < cut ? cut : Q.payload.size()) - off;
 						SUT_GUARD_ABORT(r = mpt_connection_push(P.con, n, Q.payload.data() + off));
 						if (r < 0) break;
 						off += (size_t) r;
+						if (dropit && off >= cut) break;
+					}
+					if (dropit && r >= 0 && off < Q.payload.size()) {
+						int dr; SUT_GUARD_ABORT(dr = mpt_connection_push(P.con, 1, 0));
+						C.st->hit(dr >= 0 ? "probe:request_dropped_halfway" : "probe:request_drop_refused");
+						// dropped: nothing of it may reach the peer, and what is sent afterwards is a message of its own; refused: it stays in progress and is finished
+						if (dr < 0) { while (off < Q.payload.size() && ++guard < 64) { SUT_GUARD_ABORT(r = mpt_connection_push(P.con, Q.payload.size() - off, Q.payload.data() + off)); if (r < 0) break; off += (size_t) r; } }
+						else Q.dropped = true;
 					}
 					if (r >= 0 && off == Q.payload.size()) { SUT_GUARD_ABORT(r = mpt_connection_push(P.con, 0, 0)); }
 					if (r < 0 || off < Q.payload.size()) Q.push_failed = true; else Q.sent = true;
